@@ -802,7 +802,7 @@ func init() {
 	})
 	register(&Rule{
 		ID: "C01.membership-wholly-known", Prop: "C01", Also: []string{"C02", "C03"}, Floor: 1, Controls: 0,
-		Doc: "Value.HasElement answers a definite False after the bucket lookup failed only where the set is wholly known (IsWhollyKnown on the receiver decided true on every path to that return, or the returned variable was replaced by the unknown result otherwise): an unknown member at any depth may turn out to equal the probe",
+		Doc: "Value.HasElement answers a definite False after the bucket lookup failed only where the set and the element looked for are both wholly known (IsWhollyKnown on each decided true on every path to that return, or the returned variable was replaced by the unknown result otherwise), and the set branch of Value.Equals reports a definite difference only where both sets are wholly known: an unknown value at any depth of a member or of the probe may turn out to make them equal",
 		Run: runMembershipWhollyKnown,
 	})
 	register(&Rule{
@@ -897,6 +897,7 @@ func runSetTargetCapsLength(rr *RuleRun) {
 }
 
 func runMembershipWhollyKnown(rr *RuleRun) {
+	runSetEqualsWhollyKnown(rr)
 	c := rr.Ctx
 	info := c.Info("cty")
 	fd := rr.MustDecl("cty", "Value.HasElement")
@@ -904,6 +905,10 @@ func runMembershipWhollyKnown(rr *RuleRun) {
 		return
 	}
 	recv := info.Defs[fd.Recv.List[0].Names[0]]
+	var probe types.Object // the element looked for
+	if id := paramIdent(fd, 0); id != nil {
+		probe = info.Defs[id]
+	}
 	// the bucket lookup
 	var lookup *ast.CallExpr
 	inspectNoLit(fd.Body, func(n ast.Node) bool {
@@ -964,13 +969,15 @@ func runMembershipWhollyKnown(rr *RuleRun) {
 		key := fmt.Sprintf("cty.Value.HasElement/return %s", exprStr(res))
 		wk := cf.HoldsAt(ret, func(cond ast.Expr, truth bool) bool {
 			return truth && methodCond(info, cond, recv, "IsWhollyKnown")
-		})
+		}) && (probe == nil || cf.HoldsAt(ret, func(cond ast.Expr, truth bool) bool {
+			return truth && methodCond(info, cond, probe, "IsWhollyKnown")
+		}))
 		switch {
 		case wk:
 			rr.OK(key, ret.Pos(), "the receiver is wholly known on every path to this return")
 		case resObj != nil && cf.HasFact(ret, "notfalse", objKey(resObj)):
 			rr.OK(key, ret.Pos(), "the returned variable was replaced by a non-False result on every path on which the receiver is not wholly known")
-		case resObj != nil && notFalseOrWhollyKnown(c, info, fd, cf, g, ret, resObj, recv):
+		case resObj != nil && notFalseOrWhollyKnown(c, info, fd, cf, g, ret, resObj, recv, probe):
 			rr.OK(key, ret.Pos(), "on every path the receiver is wholly known or the returned variable was replaced by a non-False result")
 		default:
 			rr.Violation(key, ret.Pos(), "after the bucket lookup failed a definite False can be returned although the set was not established to be wholly known: a member that is (or contains) an unknown value may turn out to equal the probe, so the concrete answer can be True")
@@ -984,7 +991,7 @@ func runMembershipWhollyKnown(rr *RuleRun) {
 // notFalseOrWhollyKnown: path-wise disjunction — every predecessor edge into the return's block carries
 // either the wholly-known fact or the notfalse fact (the join of the two alternatives of the usual
 // 'noMatchResult := False; if !val.IsWhollyKnown() { noMatchResult = unknown }' shape).
-func notFalseOrWhollyKnown(c *Ctx, info *types.Info, fd *ast.FuncDecl, cf *CondFacts, g *FuncCFG, ret *ast.ReturnStmt, v, recv types.Object) bool {
+func notFalseOrWhollyKnown(c *Ctx, info *types.Info, fd *ast.FuncDecl, cf *CondFacts, g *FuncCFG, ret *ast.ReturnStmt, v, recv, probe types.Object) bool {
 	// find the statement that conditionally replaces v: an if whose condition is the (negated) wholly-known
 	// test and whose body assigns v; it must dominate the return and v must not be assigned False afterwards
 	okShape := false
@@ -993,8 +1000,28 @@ func notFalseOrWhollyKnown(c *Ctx, info *types.Info, fd *ast.FuncDecl, cf *CondF
 		if !ok || is.Else != nil || !g.Dominates(is.Cond, ret) {
 			return true
 		}
-		neg, isNeg := ast.Unparen(is.Cond).(*ast.UnaryExpr)
-		if !isNeg || neg.Op != token.NOT || !methodCond(info, neg.X, recv, "IsWhollyKnown") {
+		// the condition is a disjunction of '!X.IsWhollyKnown()' tests that covers the receiver and the probe:
+		// when it is false both are wholly known
+		covered := map[types.Object]bool{}
+		var disj func(e ast.Expr) bool
+		disj = func(e ast.Expr) bool {
+			e = ast.Unparen(e)
+			if be, ok := e.(*ast.BinaryExpr); ok && be.Op == token.LOR {
+				return disj(be.X) && disj(be.Y)
+			}
+			neg, isNeg := e.(*ast.UnaryExpr)
+			if !isNeg || neg.Op != token.NOT {
+				return false
+			}
+			for _, o := range []types.Object{recv, probe} {
+				if o != nil && methodCond(info, neg.X, o, "IsWhollyKnown") {
+					covered[o] = true
+					return true
+				}
+			}
+			return false
+		}
+		if !disj(is.Cond) || !covered[recv] || (probe != nil && !covered[probe]) {
 			return true
 		}
 		assigns := false
@@ -3086,4 +3113,56 @@ func countDecidesSomething(c *Ctx, info *types.Info, fd *ast.FuncDecl, call *ast
 		})
 	}
 	return res
+}
+
+
+// runSetEqualsWhollyKnown: in Value.Equals, wherever the branch conditions establish a set type, a
+// definite difference (a bool variable set to false, or a return of False) needs both operands wholly known.
+func runSetEqualsWhollyKnown(rr *RuleRun) {
+	c := rr.Ctx
+	info := c.Info("cty")
+	fd := rr.MustDecl("cty", "Value.Equals")
+	if fd == nil {
+		return
+	}
+	recv := info.Defs[fd.Recv.List[0].Names[0]]
+	other := info.Defs[paramIdent(fd, 0)]
+	cf := c.CondFacts(fd.Body, info, nil)
+	inSetBranch := func(n ast.Node) bool {
+		return cf.HoldsAt(n, func(cond ast.Expr, truth bool) bool {
+			call, ok := ast.Unparen(cond).(*ast.CallExpr)
+			if !ok || !truth {
+				return false
+			}
+			se, ok := call.Fun.(*ast.SelectorExpr)
+			return ok && se.Sel.Name == "IsSetType" && isCtyType(info.TypeOf(se.X))
+		})
+	}
+	bothWK := func(n ast.Node) bool {
+		a := cf.HoldsAt(n, func(cond ast.Expr, truth bool) bool { return truth && methodCond(info, cond, recv, "IsWhollyKnown") })
+		b := cf.HoldsAt(n, func(cond ast.Expr, truth bool) bool { return truth && methodCond(info, cond, other, "IsWhollyKnown") })
+		return a && b
+	}
+	n := 0
+	inspectNoLit(fd.Body, func(nd ast.Node) bool {
+		as, ok := nd.(*ast.AssignStmt)
+		if !ok || len(as.Lhs) != 1 || len(as.Rhs) != 1 {
+			return true
+		}
+		tv, ok := info.Types[as.Rhs[0]]
+		if !ok || tv.Value == nil || tv.Value.String() != "false" || !inSetBranch(as) {
+			return true
+		}
+		n++
+		key := "cty.Value.Equals/set/" + exprStr(as.Lhs[0]) + "=false"
+		if bothWK(as) {
+			rr.OK(key, as.Pos(), "both sets are wholly known where a difference is recorded")
+		} else {
+			rr.Violation(key, as.Pos(), "a definite difference between two sets is recorded on a path that has not established that both sets are wholly known: a member containing an unknown value matches no member of the other set yet but may turn out to be equal to one, so the concrete sets can be equal")
+		}
+		return true
+	})
+	if n == 0 {
+		rr.Info("cty.Value.Equals/set", fd.Pos(), "the set branch of Equals records no difference by assignment")
+	}
 }
